@@ -320,6 +320,13 @@ func symBinop(op token.Token, t types.Type, x, y value) value {
 	case token.SUB:
 		return mkval(Bin(OpSub, tx, ty), k)
 	case token.MUL:
+		if Params["absmul"] != 0 && ty.IsConst() && ty.K == 16777619 && !tx.IsConst() {
+			// sound over-approximation: the FNV multiply is an uninterpreted function
+			if Params["absmul"] == 2 {
+				return mkval(UF("fnvmul", tx, w), k)
+			}
+			return mkval(X.freshVar("fnvmul", w, false), k)
+		}
 		return mkval(Bin(OpMul, tx, ty), k)
 	case token.QUO, token.REM:
 		if !ty.IsConst() {
